@@ -229,6 +229,41 @@ func c15One(c *core.Ctx, s *sgen.Schema, desc, route string, attrs map[string]st
 		c.Violation("roundtrip", with("what", "not-a-fixed-point"), detail(firstLineDiff(s1, s2), "printed", s1))
 		return
 	}
+	// per type: the SDL each type and directive prints for itself (Type.SDL(true)), assembled in the REVERSE of the root's order,
+	// is accepted by a fresh root and defines the same schema
+	var per []string
+	if pi := core.Safe(func() {
+		for _, t := range append(append([]ggql.Type{}, l.root.Types()...), l.root.Directives()...) {
+			if !t.Core() {
+				per = append([]string{t.SDL(true)}, per...)
+			}
+		}
+	}); pi != nil {
+		c.Outcome("panic")
+		c.Violation("panic", map[string]string{"site": pi.Site, "class": pi.Class, "where": "per-type-print"}, detail(pi.Value))
+		return
+	}
+	perText := strings.Join(per, "\n")
+	lp := loadSDL(perText)
+	if lp.pi != nil || lp.err != nil {
+		c.Outcome("per-type-sdl-refused")
+		c.Violation("roundtrip", with("what", "per-type-sdl-refused"), detail(fmt.Sprint(lp.err, lp.pi), "printed", perText))
+		return
+	}
+	if pt, err := sgen.FromRoot(lp.root, dn); err != nil {
+		c.Violation("readback-error", with("stage", "per-type"), detail(err.Error(), "printed", perText))
+		return
+	} else {
+		gotP := pt.Canonical(sgen.CanonOpts{})
+		if route == "addtypes" {
+			gotP = normalizeDescs(pt).Canonical(sgen.CanonOpts{})
+		}
+		if gotP != cmp1 {
+			c.Outcome("schema-changed")
+			c.Violation("roundtrip", with("what", "per-type-schema-changed"), detail(firstLineDiff(cmp1, gotP), "printed", perText))
+			return
+		}
+	}
 	if route == "addtypes" {
 		// un-normalised descriptions print as given and come back normalised: the fixed point is reached one step later
 		l3 := loadSDL(s2)
@@ -338,7 +373,7 @@ func runC15(c *core.Ctx) {
 	if c.Shard == 0 {
 		c15Ggqlgen(c, bases)
 	}
-	c.R.Bound = fmt.Sprintf("A: %d schemas; B: %d sites x %d strings (<= %d units over %d); C: ggqlgen on the bases (thorough)", len(subjects), len(c15Sites()), len(strs), maxLen, len(c15Units))
+	c.R.Bound = fmt.Sprintf("A: %d schemas; B: %d sites x %d strings (<= %d units over %d); B2: 7 constant sites x 24 numbers; whole-root and per-type (reversed) printed forms; C: ggqlgen on the bases (thorough)", len(subjects), len(c15Sites()), len(strs), maxLen, len(c15Units))
 	if !completed {
 		c.Cap("deadline reached")
 	}
